@@ -2,8 +2,9 @@ package yang
 
 // Bounded stand-in for the graph-theoretic clause of C11: the reported derived
 // identities equal the transitive closure computed independently, over random
-// derivation graphs spread across modules with multiple bases, equal names in
-// different modules and arbitrary import prefixes; each graph is processed
+// derivation graphs spread across modules and submodules with multiple bases,
+// equal names in different modules, import prefixes that denote different
+// modules in different importers, and modules that share their own prefix; each graph is processed
 // several times (map iteration order differs between runs) and the lists must
 // be identical every time. Undefined bases and cycles must be errors.
 
@@ -23,34 +24,60 @@ type govcIdent struct {
 	bases []int // indices into the identity list
 }
 
-func govcBuildIdentityModules(ids []govcIdent, nmods int, prefixes [][]string, extra []string) []string {
+// govcBuildIdentityModules writes the modules. own[m] is the prefix module m
+// gives itself; prefixes[m][o] the prefix under which module m imports module
+// o; when sub[m] is set the identities of module m are written in a submodule
+// s<m> that m includes, and the submodule imports the other modules under its
+// own prefixes subPrefixes[m][o]. Prefixes are distinct within one (sub)module
+// only: the same prefix may denote different modules in different importers,
+// and two modules may give themselves the same prefix.
+func govcBuildIdentityModules(ids []govcIdent, nmods int, own []string, prefixes, subPrefixes [][]string, sub []bool) []string {
 	var srcs []string
 	for m := 0; m < nmods; m++ {
-		var sb strings.Builder
-		fmt.Fprintf(&sb, "module m%d { namespace \"urn:m%d\"; prefix own%d;\n", m, m, m)
+		var sb, body strings.Builder
+		fmt.Fprintf(&sb, "module m%d { namespace \"urn:m%d\"; prefix %s;\n", m, m, own[m])
 		for o := 0; o < nmods; o++ {
 			if o != m {
 				fmt.Fprintf(&sb, "  import m%d { prefix %s; }\n", o, prefixes[m][o])
 			}
 		}
+		pf := prefixes[m]
+		if sub[m] {
+			pf = subPrefixes[m]
+			fmt.Fprintf(&sb, "  include s%d;\n", m)
+		}
 		for _, id := range ids {
 			if id.mod != m {
 				continue
 			}
-			fmt.Fprintf(&sb, "  identity %s {", id.name)
+			fmt.Fprintf(&body, "  identity %s {", id.name)
 			for _, b := range id.bases {
 				bm := ids[b].mod
 				if bm == m {
 					if b%2 == 0 {
-						fmt.Fprintf(&sb, " base %s;", ids[b].name)
+						fmt.Fprintf(&body, " base %s;", ids[b].name)
 					} else {
-						fmt.Fprintf(&sb, " base own%d:%s;", m, ids[b].name)
+						fmt.Fprintf(&body, " base %s:%s;", own[m], ids[b].name)
 					}
 				} else {
-					fmt.Fprintf(&sb, " base %s:%s;", prefixes[m][bm], ids[b].name)
+					fmt.Fprintf(&body, " base %s:%s;", pf[bm], ids[b].name)
 				}
 			}
-			sb.WriteString(" }\n")
+			body.WriteString(" }\n")
+		}
+		if sub[m] {
+			var ss strings.Builder
+			fmt.Fprintf(&ss, "submodule s%d { belongs-to m%d { prefix %s; }\n", m, m, own[m])
+			for o := 0; o < nmods; o++ {
+				if o != m {
+					fmt.Fprintf(&ss, "  import m%d { prefix %s; }\n", o, subPrefixes[m][o])
+				}
+			}
+			ss.WriteString(body.String())
+			ss.WriteString("}\n")
+			srcs = append(srcs, ss.String())
+		} else {
+			sb.WriteString(body.String())
 		}
 		if m == 0 {
 			for i, id := range ids {
@@ -61,13 +88,24 @@ func govcBuildIdentityModules(ids []govcIdent, nmods int, prefixes [][]string, e
 				fmt.Fprintf(&sb, "  leaf ref%d { type identityref { base %s%s; } }\n", i, pfx, id.name)
 			}
 		}
-		if m < len(extra) {
-			sb.WriteString(extra[m])
-		}
 		sb.WriteString("}\n")
 		srcs = append(srcs, sb.String())
 	}
 	return srcs
+}
+
+// govcDistinctPrefixes draws n prefixes from the pool, all different and
+// different from avoid.
+func govcDistinctPrefixes(rng *rand.Rand, n int, avoid string) []string {
+	pool := []string{"p", "q", "r", "s", "t"}
+	rng.Shuffle(len(pool), func(a, b int) { pool[a], pool[b] = pool[b], pool[a] })
+	var out []string
+	for _, c := range pool {
+		if c != avoid && len(out) < n {
+			out = append(out, c)
+		}
+	}
+	return out
 }
 
 func TestGovcBoundedC11Closure(t *testing.T) {
@@ -105,12 +143,15 @@ func TestGovcBoundedC11Closure(t *testing.T) {
 			}
 			ids = append(ids, id)
 		}
+		own := make([]string, nmods)
+		sub := make([]bool, nmods)
 		prefixes := make([][]string, nmods)
+		subPrefixes := make([][]string, nmods)
 		for m := range prefixes {
-			prefixes[m] = make([]string, nmods)
-			for o := range prefixes[m] {
-				prefixes[m][o] = fmt.Sprintf("p%d%c", o, 'x'+rune(rng.Intn(3)))
-			}
+			own[m] = []string{"p", "q", "own"}[rng.Intn(3)]
+			sub[m] = rng.Intn(3) == 0
+			prefixes[m] = govcDistinctPrefixes(rng, nmods, own[m])
+			subPrefixes[m] = govcDistinctPrefixes(rng, nmods, own[m])
 		}
 		// reference: transitive derivations
 		derived := make([]map[int]bool, n)
@@ -135,7 +176,7 @@ func TestGovcBoundedC11Closure(t *testing.T) {
 				}
 			}
 		}
-		srcs := govcBuildIdentityModules(ids, nmods, prefixes, nil)
+		srcs := govcBuildIdentityModules(ids, nmods, own, prefixes, subPrefixes, sub)
 		distinct++
 		var first string
 		for run := 0; run < 4; run++ {
@@ -144,7 +185,7 @@ func TestGovcBoundedC11Closure(t *testing.T) {
 			ok := true
 			order := rng.Perm(len(srcs))
 			for _, ix := range order {
-				if err := ms.Parse(srcs[ix], fmt.Sprintf("m%d.yang", ix)); err != nil {
+				if err := ms.Parse(srcs[ix], fmt.Sprintf("f%d.yang", ix)); err != nil {
 					fmt.Printf("GOVC-FAIL name=c11-identity-closure graph %d does not parse: %v\n", g, err)
 					ok = false
 				}
@@ -159,7 +200,11 @@ func TestGovcBoundedC11Closure(t *testing.T) {
 			var lines []string
 			for i, id := range ids {
 				var obj *Identity
-				for _, x := range ms.Modules[fmt.Sprintf("m%d", id.mod)].Identity {
+				holder := ms.Modules[fmt.Sprintf("m%d", id.mod)]
+				if sub[id.mod] {
+					holder = ms.SubModules[fmt.Sprintf("s%d", id.mod)]
+				}
+				for _, x := range holder.Identity {
 					if x.Name == id.name {
 						obj = x
 					}
@@ -178,7 +223,7 @@ func TestGovcBoundedC11Closure(t *testing.T) {
 					if v == obj {
 						fmt.Printf("GOVC-FAIL name=c11-identity-closure graph %d: %s lists itself\n", g, id.name)
 					}
-					got = append(got, RootNode(v).Name+":"+v.Name)
+					got = append(got, "m"+RootNode(v).Name[1:]+":"+v.Name)
 				}
 				var want []string
 				for d := range derived[i] {
@@ -221,5 +266,5 @@ func TestGovcBoundedC11Closure(t *testing.T) {
 			fmt.Printf("GOVC-FAIL name=c11-identity-errors accepted without error: %s\n", bad)
 		}
 	}
-	fmt.Printf("GOVC-BOUNDED name=c11-identity-closure bound=%d_random_derivation_graphs_(<=8_identities,_<=3_modules,_seed_%d)_x_4_runs_each evaluations=%d distinct=%d\n", graphs, seed, evals, distinct)
+	fmt.Printf("GOVC-BOUNDED name=c11-identity-closure bound=%d_random_derivation_graphs_(<=8_identities,_<=3_modules_or_submodules,_colliding_prefixes,_seed_%d)_x_4_runs_each evaluations=%d distinct=%d\n", graphs, seed, evals, distinct)
 }
